@@ -38,7 +38,7 @@ FINDING_CELL = 'C10-ipython-cell-rows-lost-after-file-block'
 FINDING_UNCACHED = 'C10-ipython-cell-without-cached-source-has-no-rows'
 FALLBACK = 'UnicodeEncodeError - help wanted for a fix'
 COQ_ENC = {'ascii': 'Ascii', 'latin-1': 'Latin1'}
-N_CANONICAL = 10
+N_CANONICAL = 14
 ENTRIES = ['show_text', 'show_text', 'print_stats', 'viewer']
 
 COMBOS = [list(c) for c in itertools.product([False, True], repeat=4)]   # strip, sort, summarize, details
@@ -226,6 +226,17 @@ def gen_case(rnd, idx, tmpdir, malformed=False, shapes=None):
             if ta >= tb:
                 stats[b][3][0][2] = ta - tb
     rnd.shuffle(stats)
+    if stats and rnd.random() < 0.15:
+        rnd.shuffle(rnd.choice(stats)[3])        # not ordered by line: still every line once
+    if len(stats) >= 2 and rnd.random() < 0.1:
+        # exact totals beyond 2**53 that are equal as floats
+        a, b = rnd.sample(range(len(stats)), 2)
+        if stats[a][3] and stats[b][3]:
+            base = rnd.choice([10 ** 16, 10 ** 17, 3 * 10 ** 17])
+            for t in stats[a][3] + stats[b][3]:
+                t[2] = 0
+            stats[a][3][0][2] = base + rnd.randint(1, 3)
+            stats[b][3][0][2] = base
     valid = True
     if malformed and stats:
         valid = False
@@ -307,6 +318,28 @@ def encoding_case(tmpdir, idx, enc):
                 unit=1e-6, output_unit=None, combos=COMBOS, valid=True, shapes=['nonascii'])
 
 
+def big_totals_case(tmpdir, idx):
+    """sort=True orders by the exact integer tick totals: totals above 2**53 that differ in the low
+    digits (equal as floats), the larger one first by key."""
+    d = '%s/c%d' % (tmpdir, idx)
+    fn = d + '/big.py'
+    text = 'def a(x):\n    return x\n\ndef b(x):\n    return x + 1\n\ndef c(x):\n    return x + 2\n'
+    return dict(dir=d, files={fn: text}, cells={}, unit=1e-9, output_unit=None, combos=COMBOS, valid=True, shapes=['plain'],
+                stats=[[fn, 1, 'a', [[2, 7, 10 ** 17 + 3]]], [fn, 4, 'b', [[5, 7, 10 ** 17 + 2]]], [fn, 7, 'c', [[8, 3, 4 * 10 ** 17], [7, 1, 6 * 10 ** 17 - 1]]],
+                       [d + '/zz_gone.py', 3, 'z', [[4, 2, 10 ** 18 - 1]]]])
+
+
+def unsorted_missing_case(tmpdir, idx, dups):
+    """A missing file and a timings list that is not ordered by line (concatenated runs, hand-built
+    statistics); with `dups` it also repeats line numbers (outside C12's guarantee: model only)."""
+    d = '%s/c%d' % (tmpdir, idx)
+    tm = [[15, 3, 300], [12, 2, 200], [19, 1, 100], [11, 5, 50], [14, 4, 40]]
+    if dups:
+        tm = tm + [[19, 2, 7], [11, 1, 9], [13, 6, 60]]
+    return dict(dir=d, files={}, cells={}, unit=1e-6, output_unit=None, combos=COMBOS, valid=not dups, shapes=[],
+                stats=[[d + '/absent.py', 10, 'u', tm], ['<string>', 2, 'v', [[6, 1, 10], [3, 2, 20], [4, 3, 30]]]])
+
+
 def ties_case(tmpdir, idx, unit, ou):
     """Decimal ties and column-width boundaries: x.x5 values that are exact in binary, cells of
     exactly 12 / 13 and 8 / 9 characters, hits of 9 / 10 digits."""
@@ -382,13 +415,26 @@ def gen_session(rnd, idx, tmpdir):
         # code generated at run time (exec / dataclass / namedtuple style): its file name is a pseudo-name
         L += ['_SRC = "@profile\\ndef gen(n):\\n    t = 0\\n    for i in range(n):\\n        t += i\\n    return t\\n"',
               "exec(compile(_SRC, %r, 'exec'))" % rnd.choice(['<string>', '<generated>', '<frozen fake>']), '']
+    # how the program leaves sys.stdout: untouched, rebound to a sink and never restored, or wrapped by an
+    # object of an auto-profiled helper module (-p helper): kernprof's own prints then run profiled code
+    stdout_mode = {1: 'devnull', 6: 'stringio', 5: 'tee'}.get(idx % 8) if not self_import else None
+    helper = None
     L.append("if __name__ == '__main__':")
+    if stdout_mode == 'tee':
+        helper = ('class Tee:\n    def __init__(self, out):\n        self.out = out\n        self.n = 0\n\n'
+                  '    def write(self, s):\n        self.n += 1\n        return self.out.write(s)\n\n'
+                  '    def flush(self):\n        self.out.flush()\n\n\ndef make(out):\n    return Tee(out)\n')
+        L += ['    import helper_tee', '    sys.stdout = helper_tee.make(sys.stdout)', "    print('through the tee')"]
     if gen_exec:
         L.append('    gen(%d)' % rnd.randint(1, 5))
     if self_import:
         L.append('    __import__(%r)' % modname)
     for j in range(nfun):
         L.append('    fn%d(%d)' % (j, rnd.randint(1, 6)))
+    if stdout_mode == 'devnull':
+        L += ['    import os', "    sys.stdout = open(os.devnull, 'w')"]
+    elif stdout_mode == 'stringio':
+        L += ['    import io', '    sys.stdout = io.StringIO()', "    print('into the void')"]
     L.append('else:')
     called = [j for j in range(nfun) if rnd.random() < 0.6]
     L += ['    fn%d(%d)' % (j, rnd.randint(1, 4)) for j in called] or ['    pass']
@@ -400,8 +446,11 @@ def gen_session(rnd, idx, tmpdir):
     enc = [None, 'ascii', 'latin-1'][idx % 3]
     if enc and not encodable(modname, enc):
         enc = 'latin-1' if encodable(modname, 'latin-1') else None
-    return dict(dir=d, view_cwd=d + 'v', encoding=enc, files={'%s/%s.py' % (d, modname): text}, script=modname + '.py',
-                kernprof_args=(['-u', ku] if ku else []) + (['-z'] if kz else []),
+    files = {'%s/%s.py' % (d, modname): text}
+    if helper:
+        files[d + '/helper_tee.py'] = helper
+    return dict(dir=d, view_cwd=d + 'v', encoding=enc, files=files, script=modname + '.py', stdout_mode=stdout_mode,
+                kernprof_args=(['-u', ku] if ku else []) + (['-z'] if kz else []) + (['-p', 'helper_tee'] if helper else []),
                 viewer_args=(['-u', vu] if vu else []) + [a for a, on in (('-z', vz), ('-t', vt), ('-m', vm)) if on],
                 k_unit=float(ku or '1e-6'), v_unit=float(vu or '1e-6'), k_combo=[kz, False, False, True],
                 v_combo=[vz, vt, vm, True], odd_chars=['U+%04X' % ord(c) for c in chars], self_import=self_import)
@@ -436,7 +485,8 @@ def run_sessions(impl, sessions, tmp):
             resolve = {fn: (fn if fn.startswith('/') else cwd + '/' + fn) for fn, _, _, _ in r['stats']}
             cases.append(dict(dir=s['dir'], files=s['files'], cells={}, encoding=s.get('encoding'), stats=r['stats'], unit=r['unit'], output_unit=unit_out,
                               combos=[combo], valid=True, shapes=['session:' + which] + (['odd_line_chars'] if s['odd_chars'] else [])
-                              + (['two_spellings_of_one_file'] if s['self_import'] else []),
+                              + (['two_spellings_of_one_file'] if s['self_import'] else [])
+                              + (['program_leaves_stdout_' + s['stdout_mode']] if s.get('stdout_mode') else []),
                               resolve=resolve, session=s, report=which))
             err = kerr if which == 'kernprof -l -v' else (
                 None if r['viewer']['rc'] == 0 else 'viewer exit %s: %s' % (r['viewer']['rc'], r['viewer']['err'][-300:]))
@@ -468,7 +518,9 @@ def gen_cases(tier, rnd, tmpdir):
              with_entry(dict(finding_case(tmpdir, 6), unit=1e-3), 'viewer'),
              uncached_cell_case(tmpdir, 7) if uncached_enabled() else ties_case(tmpdir, 7, 2.5e-7, 1e-3),
              encoding_case(tmpdir, 8, 'ascii'),
-             with_entry(encoding_case(tmpdir, 9, 'latin-1'), 'viewer')]
+             with_entry(encoding_case(tmpdir, 9, 'latin-1'), 'viewer'),
+             big_totals_case(tmpdir, 10), with_entry(big_totals_case(tmpdir, 11), 'viewer'),
+             unsorted_missing_case(tmpdir, 12, False), with_entry(unsorted_missing_case(tmpdir, 13, True), 'print_stats')]
     assert len(cases) == N_CANONICAL
     for i in range(n_hist):          # histories first: all steps of one history run in one driver process
         hs = history_cases(rnd, i, tmpdir)
@@ -838,7 +890,7 @@ def coq_combos(tier, k, n_single_from=16):
     every option combination is compared inside Coq in every run; the python-side predicate sees
     all 16 reports of every case in both tiers."""
     n = n_single_from
-    if tier != 'quick' or k in (0, 1, 4, 5, 6, 7):      # the regression cases and one ties case: all of them
+    if tier != 'quick' or k in (0, 1, 4, 5, 6, 7, 10, 12):      # the regression cases and one ties case: all of them
         return set(range(n))
     return {n - 1} | {(5 * k + i) % n for i in range(5 if n == 16 else 2)}
 
